@@ -80,12 +80,16 @@ type State struct {
 	loopIn    map[string]Term
 	loopSnap  map[int]*State
 	headSnap  map[int]*State // the state at the head of the current iteration (after havoc and invariants)
+	snapBase  int             // for a snapshot: number of lines when it was taken
+	merged    map[string]bool // snapshot lines already merged into this state
 	tableKeys map[string][]Term
 	epochID   int // identifies the last whole-heap havoc on this path
 	declared  map[string]bool
 	keepPkgs  []string // packages whose untouched components still have their entry value after whole-heap havocs
 	keepNone  bool
 	dbg       map[string]ssa.Value // the value a source variable was last seen with on this path (DebugRef)
+	leaked    map[*ssa.Alloc]bool  // local allocations whose address has been handed out on this path
+	contains  map[*ssa.Alloc][]containedRef
 }
 
 func (s *State) clone() *State {
@@ -137,10 +141,28 @@ func (s *State) clone() *State {
 	}
 	n.keepPkgs = s.keepPkgs
 	n.keepNone = s.keepNone
+	if s.leaked != nil {
+		n.leaked = make(map[*ssa.Alloc]bool, len(s.leaked))
+		for k, v := range s.leaked {
+			n.leaked[k] = v
+		}
+	}
+	if s.contains != nil {
+		n.contains = make(map[*ssa.Alloc][]containedRef, len(s.contains))
+		for k, v := range s.contains {
+			n.contains[k] = v
+		}
+	}
 	if s.dbg != nil {
 		n.dbg = make(map[string]ssa.Value, len(s.dbg))
 		for k, v := range s.dbg {
 			n.dbg[k] = v
+		}
+	}
+	if s.merged != nil {
+		n.merged = make(map[string]bool, len(s.merged))
+		for k := range s.merged {
+			n.merged[k] = true
 		}
 	}
 	if s.headSnap != nil {
@@ -180,6 +202,26 @@ func (s *State) declare(name, sort string) {
 }
 
 // mergeLines appends lines produced in a snapshot state, skipping constants already declared here.
+// mergeSnap makes everything that evaluations in the snapshot have declared or defined since it was taken
+// available in this state (the snapshot is shared by all paths that continue from it).
+func (s *State) mergeSnap(snap *State) {
+	if snap.snapBase > len(snap.lines) {
+		return
+	}
+	if s.merged == nil {
+		s.merged = map[string]bool{}
+	}
+	var add []string
+	for _, l := range snap.lines[snap.snapBase:] {
+		if s.merged[l] {
+			continue
+		}
+		s.merged[l] = true
+		add = append(add, l)
+	}
+	s.mergeLines(add)
+}
+
 func (s *State) mergeLines(lines []string) {
 	for _, l := range lines {
 		if strings.HasPrefix(l, "(declare-const ") {
@@ -337,6 +379,7 @@ func (u *Unit) heapGet(st *State, comp, sort string) Term {
 		u.entryHeap = map[string]Term{}
 	}
 	u.entryHeap[comp] = mk(n, sort)
+	u.closedEntryComp(comp, n)
 	if st.epoch > 0 && !pkgMatches(u.eng.compPkg[comp], st.keepPkgs) {
 		// untouched since a havoc of the whole heap: unknown content, one constant per havoc event
 		fn := fmt.Sprintf("%s!e%d", comp, st.epochID)
@@ -384,18 +427,21 @@ func (u *Unit) fieldComp(structT types.Type, i int) (string, string, types.Type)
 	f := st.Field(i)
 	comp := "F_" + u.eng.tn.mangle(structT) + "_" + sanitize(f.Name())
 	u.eng.notePkg(comp, structT)
+	u.eng.noteRefKind(comp, f.Type(), false)
 	return comp, arraySort(SInt, u.sortOf(f.Type())), f.Type()
 }
 
 func (u *Unit) cellComp(t types.Type) (string, string) {
 	comp := "C_" + u.eng.tn.mangle(t)
 	u.eng.notePkg(comp, t)
+	u.eng.noteRefKind(comp, t, false)
 	return comp, arraySort(SInt, u.sortOf(t))
 }
 
 func (u *Unit) elemComp(t types.Type) (string, string) {
 	comp := "E_" + u.eng.tn.mangle(t)
 	u.eng.notePkg(comp, t)
+	u.eng.noteRefKind(comp, t, true)
 	return comp, arraySort(SInt, arraySort(SInt, u.sortOf(t)))
 }
 
@@ -588,4 +634,29 @@ func (u *Unit) findLoops() {
 	for i, h := range hs {
 		u.headers[h] = i + 1
 	}
+}
+
+// closedEntryComp: every reference held in the heap at function entry designates an object that exists at
+// entry (own <= alloc!0). Stated once per component of reference kind, for the entry constant, with the read
+// as trigger, so that it is also available for elements and fields reached under a quantifier.
+func (u *Unit) closedEntryComp(comp, name string) {
+	k := u.eng.compRef[comp]
+	if k == "" {
+		return
+	}
+	val := func(x string) string {
+		if strings.HasPrefix(k, "slice") {
+			return "(sbase " + x + ")"
+		}
+		return x
+	}
+	var ax string
+	if strings.HasSuffix(k, "/elem") {
+		r := "(select (select " + name + " b!c) i!c)"
+		ax = fmt.Sprintf("(forall ((b!c Int) (i!c Int)) (! (<= (own %s) alloc!0) :pattern (%s)))", val(r), r)
+	} else {
+		r := "(select " + name + " r!c)"
+		ax = fmt.Sprintf("(forall ((r!c Int)) (! (<= (own %s) alloc!0) :pattern (%s)))", val(r), r)
+	}
+	u.pre.axiomFor(name+" |"+name+")", ax)
 }
